@@ -121,6 +121,16 @@ class Run(RunBase):
             self.calc = OnsagerCalc.VacancyMediated(crys, chem, self.ctor_args[0], self.ctor_args[1],
                                                     self.N, NGFmax=self.NGF)
             self.faults["calculator-on-used-crystal-object"] += 1
+            if world["pool_seed"] % 4 < 2:
+                # the caller goes on using ITS lists for something else (unit conversion, pruning): the calculator
+                # was handed them at construction and must not see later edits (HEAD deep-copies them)
+                for jl in self.ctor_args[1]:
+                    for ij, dx in jl:
+                        dx *= 1.7
+                    del jl[2:]
+                for lst in self.ctor_args[0]:
+                    lst.reverse()
+                self.faults["caller-edits-its-lists-after-construction"] += 1
         elif world["birth"] == "ctor":
             self.calc = self.wd.construct(self.N, self.NGF)
         else:
